@@ -175,6 +175,10 @@ func body(fam t1fonts.Family) func(c *mc.Ctx, item int) mc.Verdict {
 		if err != nil {
 			return fail("C08:write-error", "write: "+err.Error())
 		}
+		// writing is an observation: the font handed to the writer is what it was before
+		if after, before := t1fonts.Dump(src), t1fonts.Dump(pristine); after != before {
+			return fail("C08:write-changed-the-font", "the font value differs after writing: "+after)
+		}
 		data := buf.Bytes()
 		dec, derr := t1dec.Decode(data, form == 4)
 		c.Step()
